@@ -443,7 +443,8 @@ def refDyad (verb : String) (a b : Val) : Option Val :=
         | _ => none
       | none => none
     | ":_", .int n, b =>
-      if n < 0 || n.toNat > seqLen b then none else
+      -- cutting an empty list: the manual's "zero or #b" clauses overlap; left undefined
+      if n < 0 || n.toNat > seqLen b || seqLen b = 0 then none else
       match b with
       | .list xs => segs false (refCut [n.toNat] xs)
       | .str cs => segs true (refCut [n.toNat] (strChars cs))
@@ -451,7 +452,7 @@ def refDyad (verb : String) (a b : Val) : Option Val :=
     | ":_", .list ps, b =>
       match natList ps with
       | some ps =>
-        if !(ps.zip (ps.drop 1)).all (fun (x, y) => x ≤ y) || ps.any (· > seqLen b) then none else
+        if !(ps.zip (ps.drop 1)).all (fun (x, y) => x ≤ y) || ps.any (· > seqLen b) || seqLen b = 0 then none else
         match b with
         | .list xs => segs false (refCut ps xs)
         | .str cs => segs true (refCut ps (strChars cs))
